@@ -13,6 +13,10 @@ GL = ["crypto_stream/chacha20/stream_chacha20.c", "crypto_stream/salsa20/stream_
       "crypto_stream/xsalsa20/stream_xsalsa20.c", "crypto_stream/crypto_stream.c", "sodium/utils.c"]
 
 
+import os
+SPLIT_BACKEND = os.environ.get('SPLIT_BACKEND', 'sat')
+
+
 def obligations(tier):
     obs = []
     lens = list(range(0, 131)) if tier == "thorough" else [0, 1, 63, 64, 65, 128, 130]
@@ -28,4 +32,32 @@ def obligations(tier):
                   unwind=4, timeout=600, family="ietf-counter-guard",
                   desc="IETF variant: misuse <=> ic + ceil(mlen/64) > 2^32, else forwarded unchanged",
                   bounds="all 32-bit ic, all 64-bit mlen"))
+    for a, b in ((0, 1), (0, 64), (64, 1), (64, 64), (128, 72), (192, 8)):
+        obs.append(Ob("counter-progress-%d" % (a + b), "C03/counter.c", units=["sodium/utils.c"], stubs=["misuse.c", "libc.c"],
+                      defs={"A": a, "B": b, "MODE": 0}, unwind=70, slice_formula=True, timeout=600, nochecks=True, family="chacha20-counter",
+                      desc="chacha20 ref: stored counter after len bytes = ic + ceil(len/64) mod 2^64",
+                      bounds="all keys/nonces/64-bit counters (incl. low word 0xffffffff); len in {1,64,65,128,200}"))
+    for tot in ([65, 128, 130, 200] if tier != "thorough" else list(range(65, 201))):
+        obs.append(Ob("multiblock-%d" % tot, "C03/counter.c", units=["sodium/utils.c"], stubs=["misuse.c", "libc.c"],
+                      defs={"A": tot, "B": 0, "MODE": 1}, unwind=210, timeout=600, nochecks=True, family="chacha20-multiblock",
+                      tier="quick" if tot in (65, 128, 130, 200) else "thorough",
+                      desc="chacha20 ref multi-block data path: byte i = m[i] XOR Block(ic + i/64), counter crossing 2^32 inside the call",
+                      bounds="key/nonce concretised to the RFC 8439 vector (recorded cut), ic = 0xfffffffe, all message bytes; len 65..200 (quick: 65,128,130,200)"))
+    KUNITS = {0: ["crypto_stream/chacha20/ref/chacha20_ref.c"], 1: ["crypto_stream/chacha20/ref/chacha20_ref.c"],
+              2: ["crypto_core/hchacha20/core_hchacha20.c"], 3: ["crypto_stream/salsa20/ref/salsa20_ref.c", "crypto_core/salsa/ref/core_salsa_ref.c"],
+              4: ["crypto_core/hsalsa20/ref2/core_hsalsa20_ref2.c"], 5: ["crypto_core/salsa/ref/core_salsa_ref.c"],
+              6: ["crypto_core/salsa/ref/core_salsa_ref.c"], 7: ["crypto_core/salsa/ref/core_salsa_ref.c"],
+              8: ["crypto_stream/salsa2012/ref/stream_salsa2012_ref.c", "crypto_stream/salsa2012/stream_salsa2012.c", "crypto_core/salsa/ref/core_salsa_ref.c"],
+              9: ["crypto_stream/salsa208/ref/stream_salsa208_ref.c", "crypto_stream/salsa208/stream_salsa208.c", "crypto_core/salsa/ref/core_salsa_ref.c"]}
+    KNAME = {0: "chacha20-ref", 1: "chacha20-ietf-ref", 2: "hchacha20", 3: "salsa20-ref", 4: "hsalsa20", 5: "core-salsa20",
+             6: "core-salsa2012", 7: "core-salsa208", 8: "salsa2012-stream", 9: "salsa208-stream"}
+    for kn in range(10):
+        lens = [64] if kn in (2, 4, 5, 6, 7) else ([64, 1, 63] if tier != "thorough" else [64, 0, 1, 17, 32, 63])
+        for L in lens:
+            obs.append(Ob("kernel-%s-len%d" % (KNAME[kn], L), "C03/kernel.c", units=KUNITS[kn] + ["sodium/utils.c"],
+                          stubs=["misuse.c", "libc.c"], defs={"KERNEL": kn, "LEN": L}, unwind=70, backend="cvc5",
+                          undefs=["HAVE_AMD64_ASM"] if kn == 3 else [], timeout=900, mem=6,
+                          family="kernel-" + KNAME[kn], nochecks=True,
+                          desc="reference core == specification model (RFC 8439 / Salsa20 spec / HChaCha20 / HSalsa20), one block incl. partial-block tail",
+                          bounds="all key/nonce/counter/message bits symbolic; len in {%s}" % ",".join(map(str, lens))))
     return obs
